@@ -404,7 +404,7 @@ package model
 //@   ensures [parameters_cover] validParams(*listener, result.DMP.MethodParameters) && coversAll(*listener, result.DMP.MethodParameters, result.DMP.Criteria)
 //@   ensures [alternatives_distinct] distinctAlts(*result.DMP)
 //@   ensures [same_alternatives] sameAlts(*result.DMP, *current)
-//@   ensures [C07 C08 C16 made_of_the_current_state] actsOn(self, result.DMP, current)
+//@   ensures [made_of_the_current_state] actsOn(self, result.DMP, current)
 
 // ---- decision-maker.go: the bias pipeline (C07, C08)
 
@@ -447,7 +447,7 @@ package model
 //@   loop 1 invariant [untouched] (forall i int :: 0 <= i && i < iter ==> !fires(dm, biasApplyProbGenerator, biases, i)) ==> current == params
 //@   loop 1 invariant [last_fired] forall i int :: 0 <= i && i < iter && fires(dm, biasApplyProbGenerator, biases, i)
 //@             && (forall j int :: i < j && j < iter ==> !fires(dm, biasApplyProbGenerator, biases, j)) ==> exists prev *DecisionMakingParams :: actsOn(*(*biases)[i].Bias, current, prev)
-//@   loop 1 hint [C07 C08 C16 each_bias_acts_on_the_state_the_previous_ones_left] (fires(dm, biasApplyProbGenerator, biases, i) ==> actsOn(*(*biases)[i].Bias, current, head(current)))
+//@   loop 1 hint [each_bias_acts_on_the_state_the_previous_ones_left] (fires(dm, biasApplyProbGenerator, biases, i) ==> actsOn(*(*biases)[i].Bias, current, head(current)))
 //@             && (!fires(dm, biasApplyProbGenerator, biases, i) ==> current == head(current))
 
 //@ lemma [C08] probability_one_always_fires: forall p real, u real
